@@ -67,5 +67,15 @@ def c18_pycode(w):
             raise RuntimeError("C18 tables: unexpected literal_value(QName) shape")
         esc.append(t[len(pre):len(t) - len(post)])
     w(f"def qnameEscAscii : List (List Char) := {strs(esc)}")
+    # ... and for lone surrogates (which no source file can hold raw)
+    sur = []
+    for cp in (0xD800, 0xDBFF, 0xDC00, 0xDFFF):
+        t = literal_value(QName(chr(cp)))
+        if not (t.startswith(pre) and t.endswith(post)):
+            raise RuntimeError("C18 tables: unexpected literal_value(QName) shape")
+        body = t[len(pre):len(t) - len(post)]
+        # a raw surrogate cannot be written into Tables.lean: record it as "RAW"
+        sur.append(body if body.isascii() else "RAW")
+    w(f"def qnameEscSurrogates : List (List Char) := {strs(sur)}")
     w(f"def builtinNames : List (List Char) := {strs(sorted(dir(builtins)))}")
     w("")
